@@ -17,7 +17,7 @@ from typing import Any, Callable, Dict, List, Optional
 
 VERIF = os.path.dirname(os.path.dirname(os.path.abspath(__file__)))
 REPO = os.environ.get("VERIF_REPO", "/repo")
-EVIDENCE_DIR = os.path.join(VERIF, "evidence")
+EVIDENCE_DIR = os.environ.get("VERIF_EVIDENCE_DIR") or os.path.join(VERIF, "evidence")   # (redirected only by developer tooling)
 REPLAY_DIR = os.path.join(EVIDENCE_DIR, "replays")
 KNOWN_FILE = os.path.join(VERIF, "known_findings.json")
 
